@@ -181,8 +181,18 @@ def gen_annotations(rng, rich=1.0, unsafe_names=False):
         lines.append("ann pagetypes %d %d %s" % (K(), n, " ".join(map(str, vals))))
         classes.add("pagetypes")
     for _ in range(rng.randint(0, int(2 * rich))):
-        lines.append("ann cache %d %d %d %d" % (K(), rng.choice([0, 32768, 18446744073709551615]), rng.choice([0, 64, 4294967295]), rng.choice([-1, 0, 8, 2147483647])))
+        lines.append("ann cache %d %d %d %d" % (K(), rng.choice([0, 32768, 4294967296, 18446744073709551615]), rng.choice([0, 64, 4294967295]), rng.choice([-1, 0, 8, 2147483647])))
         classes.add("cacheattr")
+    # boundary values of the attributes printed with a width / parsed with sscanf (apply where the topology has such objects)
+    for _ in range(rng.randint(0, int(3 * rich))):
+        fld = rng.choice(["class", "vendor", "device", "subvendor", "subdevice", "revision", "prog_if", "linkspeed64", "domain", "domain"])
+        val = {"revision": [0, 255, 16], "prog_if": [0, 255, 1], "linkspeed64": [0, 1, 64, 1008, 16384, 63],
+               "domain": [0x10000, 0xffff, 0xffffffff, 0x12345, 1]}.get(fld, [0, 0xffff, 0x100, 0xabc])
+        lines.append("ann pci %d %s %d" % (K(), fld, rng.choice(val)))
+        classes.add("pciattr")
+    for _ in range(rng.randint(0, int(2 * rich))):
+        lines.append("ann osindex %d %d" % (K(), rng.choice([0, 2147483647, 2147483648, 4294967294, 65536])))
+        classes.add("osindex")
     for _ in range(rng.randint(0, int(2 * rich))):
         nm = rng.choice([b"NUMALatency", b"MyDist", b"a b", b"x&y<z>\"q\"", b"t\tab"]) if not unsafe_names else rng.choice([b"bad\x01name", b"caf\xc3\xa9", b"hi\xff"])
         kind = rng.choice([1, 2]) | rng.choice([4, 8, 32])    # FROM_OS/USER | LATENCY/BANDWIDTH/HOPS
